@@ -229,8 +229,103 @@ impl Runner {
                     }
                 }
             }
+            if profile == "C19" {
+                self.twin(&mut rng);
+            }
         }
         self.finish();
+    }
+
+    /// C19: re-run the program just finished with a random subset of positions switched between the loud
+    /// and the quiet opcode of the same command, and compare effect and responses position by position
+    pub fn twin(&mut self, rng: &mut Rng) {
+        let start = *self.prog_start.last().unwrap();
+        let orig_ops: Vec<String> = self.ops[start..].to_vec();
+        let orig_outs: Vec<String> = self.outs[start..].to_vec();
+        let mut toggled: Vec<bool> = vec![];
+        let mut twin_ops: Vec<String> = vec![];
+        for l in &orig_ops {
+            let mut t = false;
+            let mut nl = l.clone();
+            if let Some(hx) = l.strip_prefix("req ") {
+                let mut b = wire::unhex(hx).unwrap();
+                if let Some((_, cmd)) = wire::parse_cmd(&b) {
+                    let twin_op = match b[1] {
+                        0x00 => Some(0x09), 0x09 => Some(0x00), 0x0c => Some(0x0d), 0x0d => Some(0x0c),
+                        0x01 => Some(0x11), 0x11 => Some(0x01), 0x02 => Some(0x12), 0x12 => Some(0x02),
+                        0x03 => Some(0x13), 0x13 => Some(0x03), 0x04 => Some(0x14), 0x14 => Some(0x04),
+                        0x05 => Some(0x15), 0x15 => Some(0x05), 0x06 => Some(0x16), 0x16 => Some(0x06),
+                        0x08 => Some(0x18), 0x18 => Some(0x08), 0x0e => Some(0x19), 0x19 => Some(0x0e),
+                        0x0f => Some(0x1a), 0x1a => Some(0x0f), _ => None,
+                    };
+                    if let (Some(o), true) = (twin_op, cmd != wire::Cmd::NonStandard) {
+                        if rng.chance(1, 2) {
+                            b[1] = o;
+                            t = true;
+                            nl = format!("req {}", hex(&b));
+                        }
+                    }
+                }
+            }
+            toggled.push(t);
+            twin_ops.push(nl);
+        }
+        let tstart = self.ops.len();
+        for l in &twin_ops {
+            self.exec(l);
+        }
+        let twin_outs: Vec<String> = self.outs[tstart..].to_vec();
+        let prog = self.prog_start.len() - 1;
+        let mut report = |line: usize, msg: String, me: &mut Runner| {
+            me.violations.push((prog, vec!["C19"], tstart + line, msg));
+        };
+        for i in 0..orig_ops.len() {
+            let (a, b) = (&orig_outs[i], &twin_outs[i]);
+            if orig_ops[i] == "dump" {
+                if a != b {
+                    report(i, format!("stored items differ after position {} of a loud/quiet twin pair: [{}] vs [{}]", i, a, b), self);
+                    break;
+                }
+                continue;
+            }
+            if !toggled[i] {
+                if a != b {
+                    report(i, format!("untoggled position {} answers differently in the twin run: [{}] vs [{}]", i, a, b), self);
+                    break;
+                }
+                continue;
+            }
+            // which one is the loud run?
+            let ob = wire::unhex(orig_ops[i].strip_prefix("req ").unwrap()).unwrap();
+            let orig_is_quiet = wire::is_quiet_opcode(ob[1]);
+            let (loud, quiet, qop) = if orig_is_quiet { (b, a, ob[1]) } else { (a, b, wire::unhex(twin_ops[i].strip_prefix("req ").unwrap()).unwrap()[1]) };
+            let is_get = matches!(ob[1], 0x00 | 0x09 | 0x0c | 0x0d);
+            let ltok = loud.strip_prefix("resp ").unwrap_or("");
+            let qtok = quiet.strip_prefix("resp ").unwrap_or("");
+            if ltok.is_empty() || ltok == "silent" {
+                report(i, format!("loud command at position {} was not answered: [{}]", i, loud), self);
+                break;
+            }
+            let lb = wire::unhex(ltok.split(' ').next().unwrap()).unwrap_or_default();
+            if lb.len() < 24 {
+                continue;
+            }
+            let status = u16::from_be_bytes([lb[6], lb[7]]);
+            let expect_silent = if is_get { status == 1 } else { status == 0 };
+            if expect_silent {
+                if qtok != "silent" {
+                    report(i, format!("quiet command at position {} answered [{}] although its loud twin answered status {:#x}", i, quiet, status), self);
+                    break;
+                }
+            } else {
+                let mut want = lb.clone();
+                want[1] = qop;
+                if qtok.split(' ').next().unwrap() != hex(&want) {
+                    report(i, format!("quiet command at position {} answered [{}], expected the loud answer with the quiet opcode [{}]", i, quiet, hex(&want)), self);
+                    break;
+                }
+            }
+        }
     }
 
     pub fn write(&self, dir: &str, suite: &str, profile: &str, seed: u64) {
